@@ -25,6 +25,7 @@ func init() {
 		EnumRule:    "obligations per rule and construct",
 		Assumptions: []string{"filepath.Walk visits files in lexical order; go/parser returns declarations and doc comments in source order", "that the tool finds every annotation of every tree (parser behaviour) is not decided"},
 		Controls: []Control{
+			{Name: "some collected files are not parsed", File: "kbuild/redirects.go", Old: "\tfor _, file := range sourceFiles {\n\t\tf, err := parser.ParseFile(", New: "\tfor _, file := range sourceFiles {\n\t\tif strings.HasSuffix(file, \"_amd64.go\") {\n\t\t\tcontinue\n\t\t}\n\t\tf, err := parser.ParseFile(", Expect: "C20.R2 every-file-parsed"},
 			{Name: "walk skips directories called bin", File: "kbuild/redirects.go", Old: "\t\tif info.IsDir() {\n\t\t\treturn nil\n\t\t}\n", New: "\t\tif info.Name() == \"bin\" {\n\t\t\treturn filepath.SkipDir\n\t\t}\n\t\tif info.IsDir() {\n\t\t\treturn nil\n\t\t}\n", Expect: "C20.R2"},
 			{Name: "one record shared by the annotations of a function", File: "kbuild/redirects.go", Old: "\t\t\tfor _, comment := range decl.Doc.List {\n", New: "\t\t\tshared := &SymbolRedirect{}\n\t\t\tfor _, comment := range decl.Doc.List {\n", Old2: "\t\t\t\tctx.Redirects = append(ctx.Redirects, &SymbolRedirect{\n\t\t\t\t\tComment:   fset.Position(comment.Pos()).String(),\n\t\t\t\t\tSrcSymbol: from,\n\t\t\t\t\tDstSymbol: name,\n\t\t\t\t})\n", New2: "\t\t\t\tshared.Comment, shared.SrcSymbol, shared.DstSymbol = fset.Position(comment.Pos()).String(), from, name\n\t\t\t\tctx.Redirects = append(ctx.Redirects, shared)\n", Expect: "C20.R3"},
 			{Name: "re-introduce the map range (F6)", File: "kbuild/redirects.go",
